@@ -18,7 +18,9 @@
 (***************************************************************************)
 EXTENDS Integers, Sequences, FiniteSets, TLC
 
-CONSTANTS NE, N, Timeout,   \* Timeout = 0: no timeout
+CONSTANTS NE, N, Timeout,
+          Timed,            \* FALSE: timeout=None (partitions leave only when full); TRUE: timeout=Timeout seconds -- 0 included
+                            \* (a falsy but legal value: the partition leaves at the next loop iteration)
           Mod,              \* key(e) = e % Mod
           SyncCons, MaxTime,
           Faults            \* TRUE: the consumer's awaitable may raise
@@ -58,7 +60,7 @@ Arrive(e) ==
        /\ buf' = [buf EXCEPT ![k] = Append(@, e)]
        /\ timer' = IF Len(buf[k]) + 1 = N
                    THEN [timer EXCEPT ![k] = -1]                    \* size flush: cancel (N = 1: never armed)
-                   ELSE IF Len(buf[k]) = 0 /\ Timeout > 0
+                   ELSE IF Len(buf[k]) = 0 /\ Timed
                    THEN [timer EXCEPT ![k] = now + Timeout]          \* first element of the group arms the timer
                    ELSE timer
        /\ trig' = [trig EXCEPT ![e] = (Len(buf[k]) + 1 = N)]
@@ -162,12 +164,12 @@ PartialOnlyOnTimeout == \A b \in 1 .. Len(batches) :
                             Len(batches[b][1]) < N => /\ batches[b][3] = "timer"
                                                       /\ batches[b][2] = arrAt[batches[b][1][1]] + Timeout
 \* C08 deadline
-Deadline == Timeout > 0 => \A b \in 1 .. Len(batches) : \A i \in 1 .. Len(batches[b][1]) :
+Deadline == Timed => \A b \in 1 .. Len(batches) : \A i \in 1 .. Len(batches[b][1]) :
                                batches[b][2] - arrAt[batches[b][1][i]] <= Timeout
-NoOverdue == Timeout > 0 => \A k \in Keys : \A i \in 1 .. Len(buf[k]) : now - arrAt[buf[k][i]] <= Timeout
+NoOverdue == Timed => \A k \in Keys : \A i \in 1 .. Len(buf[k]) : now - arrAt[buf[k][i]] <= Timeout
 \* an armed timer always belongs to a non-empty group and was armed by its first element
 TimerSane == \A k \in Keys : timer[k] >= 0 => (buf[k] # <<>> /\ timer[k] = arrAt[buf[k][1]] + Timeout)
-ArmedWhenNeeded == (Timeout > 0 /\ N > 1) => \A k \in Keys : (buf[k] # <<>> /\ ~Full(k)) => timer[k] >= 0
+ArmedWhenNeeded == (Timed /\ N > 1) => \A k \in Keys : (buf[k] # <<>> /\ ~Full(k)) => timer[k] >= 0
 
 \* C04 / C05
 InFlight(e) == (\E k \in Keys : InSeq(buf[k], e)) \/ (\E i \in 1 .. Len(fl) : InSeq(fl[i].es, e))
